@@ -1,13 +1,17 @@
 """C16 — Every frame reports a consistent, in-range player state.
 
-proof      : XmpProps.C16 over XmpModel.{Seq,Tick,Virt}: the sequencer kernel (next_order, next_row,
-             reposition, start-up, end detection, ST2.6 step, position-control calls) keeps the reported
-             fields in range for every history, under the monitored EffectRange assumption on what the
-             effect interpreters leave in the flow variables; tick-size arithmetic; voice bookkeeping.
+proof      : XmpProps.C16 over XmpModel.{Seq,Fx,Tick,Virt}: the sequencer kernel (next_order, next_row,
+             reposition, start-up, end detection, ST2.6 step, position-control calls, xmp_play_buffer) keeps the
+             reported fields in range for every history — under the monitored EffectRange assumption on what
+             the effect interpreters leave in the flow variables, and, with the flow-relevant part of
+             effects.c / flow.c / check_delay / read_row modelled (Fx), with the effects themselves as input;
+             tick-size arithmetic; voice bookkeeping.
 tie        : T — numeric limits regenerated from the headers (Gen/PlayerConsts.lean);
              C — harness/c16_frames.c dumps the player state before every real xmp_play_frame /
              position-control call / spied virtual.c call, the native driver recomputes the step
-             from the dumped pre-state, outputs are compared field by field.
+             from the dumped pre-state, outputs are compared field by field; every libxmp_process_fx call and
+             every frame inside xmp_play_buffer is observed through linker --wrap hooks; every effect number x
+             parameter is played in a row of a real module (fxall) and compared with Fx.readRow.
 search     : every clause of the property evaluated on xmp_frame_info after every successful frame
              (corpus + synthetic modules, random control histories, injected events, configurations).
 """
@@ -23,35 +27,60 @@ LEVEL = "proof"
 MANIFEST = dict(
     category="proof",
     text="Lean 4 theorems (XmpProps.C16) over an exact model of libxmp's sequencer kernel (next_order, next_row, update_from_ord_info, "
-         "reset_flow, start-up, reposition block, check_end_of_module, ST2.6 step, set_position/next/prev/set_row/seek_time/stop/restart), of the "
-         "tick-size arithmetic and of the voice tables of virtual.c: for ALL modules satisfying the monitored well-formedness predicate, ALL "
-         "call histories (any arguments) and ALL effect outcomes inside the monitored EffectRange, every successful frame reports 0<=pos<len, "
-         "pattern=xxo[pos]<pat, 0<=row<rows(pattern), speed 1..255, bpm>0, frame time>0 computed from the reported tempo, a valid sequence, a "
-         "non-decreasing loop counter (C16_reachable, C16_reachable_info, C16_loop_monotone_run); for modules that also satisfy the monitored "
-         "order-list clause OrdWF (every kept sequence reaches a pattern) the order-skipping loop of next_order leaves through its own "
-         "condition within len+1 iterations from any p->ord >= -1 (C16_next_order_terminates), so every xmp_play_frame returns and returns "
-         "-XMP_END exactly in the C's early-return cases (C16_frame_returns) and the history theorems hold with no divergence escape "
-         "(C16_inv_frame_total, C16_reachable_total, C16_reachable_info_total); for ALL inputs the buffer is a whole number "
-         "of 1/2/4-byte frames, between 8 and XMP_MAX_FRAMESIZE/4 frames, never above XMP_MAX_FRAMESIZE bytes, and within one frame of rate x "
-         "frame time when neither clamp applies (C16_ticksize, C16_framesize_bound, C16_ticksize_agrees); a tempo factor accepted by "
-         "xmp_set_tempo_factor is never clamped at the tempo it was accepted for nor at any faster one (C16_tempo_factor_no_clamp); 0<=virt_used<=maxvoc<=virt_channels "
-         "after every history of virtual.c operations (C16_virt, C16_virt_inv, pigeonhole for the NNA relocation proved). Tied to src/player.c, "
-         "control.c, mixer.c, virtual.c on every run by a field-by-field differential correspondence (kernel step, control calls, start-up, "
-         "ST2.6 step, tick size via the real libxmp_mixer_prepare, acceptance of every xmp_set_tempo_factor call, every table-changing "
-         "virtual.c call and every field-only one: setnna, setsmp, queuepatch, pastnote OFF/FADE, compared on all seven voice fields) and a direct oracle on xmp_frame_info "
-         "that yields replayable failing inputs.",
-    note="Partial: (1) effect interpreters (read_event.c, effects.c, play_channel) are NOT modelled; they enter as arbitrary optional writes to "
-         "pbreak/jump/jumpline/delay/rowdelay/loop_dest/speed/bpm/gvol/st26 constrained by EffectRange, which the harness monitors on every real "
-         "frame. (2) Module data (orders, rows, scan results, xxo_info) enter through the predicate WF evaluated by the Lean driver on every "
-         "module played; the scan (scan.c) and the loaders are not modelled. (3) The C computes the tick size in double; the model is exact "
-         "rational arithmetic and the correspondence brackets the rounding. (4) 'agrees with rate x frame time' is proved between the minimum "
-         "(8 frames, anticlick) and maximum frame-size clamps, for rates in [XMP_MIN_SRATE, XMP_MAX_SRATE]. (5) termination of the "
-         "order-skipping loop of next_order is proved (no longer a hypothesis) from the order-list clause OrdWF = Seq.ordWfB, which is what "
-         "libxmp_scan_sequences guarantees for every sequence it keeps (any_valid); that implication is NOT proved (scan.c is not modelled "
-         "here): OrdWF is evaluated by the Lean driver on every module played and cross-checked against the same clause evaluated in C on the "
-         "live module. (6) libxmp_virt_off (end of the tables' life) is not modelled. Correspondence is sampled (differential), not exhaustive.",
-    technique="Lean 4 invariant proofs by case analysis over the kernel + induction over call histories; differential correspondence "
-              "from dumped pre-states; direct oracle on xmp_frame_info",
+         "reset_flow, start-up, reposition block, check_end_of_module, ST2.6 step, set_position/next/prev/set_row/seek_time/stop/restart, the "
+         "xmp_play_buffer reset entry), of the flow-relevant part of the effect interpreters (XmpModel.Fx: libxmp_process_fx for EVERY effect "
+         "number and parameter byte — jump, break, IT break, line jump, pattern loop with all nine FLOW_LOOP_* mode bits and QUIRK_FT2BUGS, "
+         "pattern delay incl. the ST3 first-wins rule, IT row delay, speed/tempo set with the 0x20 split, QUIRK_NOBPM, XMP_FLAGS_VBLANK, ST3 "
+         "effect memory, speed 0 ignored, the time-factor dependent tempo minimum and its byte clamp, XMP_MIN_BPM, ICE speed, ULT tempo, "
+         "global volume; libxmp_process_pattern_loop; the speed pre-scan and delay decision of check_delay; the per-mode call order of "
+         "libxmp_read_event; the row-delay gate of read_row; the IT tempo slide tick), of the tick-size arithmetic and of the voice tables of "
+         "virtual.c. For ALL modules satisfying the monitored well-formedness predicate and ALL call histories (any arguments): every "
+         "successful frame reports 0<=pos<len, pattern=xxo[pos]<pat, 0<=row<rows(pattern), speed 1..255, bpm>0, frame time>0 computed from "
+         "the reported tempo, a valid sequence, a non-decreasing loop counter — (a) for ALL effect outcomes inside the monitored EffectRange "
+         "(C16_reachable, C16_reachable_info, C16_loop_monotone_run) and (b) with the EFFECTS AS INPUT: for all sequences of effect writes "
+         "(any effect numbers, parameter bytes, channels, effect memories, loop states, quirk sets, player/flow modes, time factors) with no "
+         "range hypothesis on what they leave behind (C16_fx_range, C16_fx_range_call, C16_fx_range_row, C16_frame_fx_refines, "
+         "C16_inv_frame_fx, C16_inv_frame_fx_total, C16_reachable_fx, C16_reachable_fx_info; C16_fx_env_ok: the only module requirement, "
+         "a non-zero byte tempo minimum, holds for the code as generated; C16_fx_writer_sites: every assignment to a kernel-read "
+         "effect-owned variable in src/*.c sits in a modelled function; C16_fx_unclamped_counterexample: tempo 0 without the clamp = the "
+         "repaired finding bpm:min_bpm_clamp). xmp_play_buffer calls (any loop limit, any size, continuing after -XMP_END) play zero or "
+         "more frames and nothing else: every state they pass through satisfies the invariant and the loop counter never decreases across "
+         "them (C16_play_buffer, C16_reachable_api, C16_loop_monotone_api). For modules that also satisfy the monitored order-list clause "
+         "OrdWF the order-skipping loop of next_order terminates within len+1 iterations (C16_next_order_terminates), every xmp_play_frame "
+         "returns, -XMP_END exactly in the C's early-return cases (C16_frame_returns), and the history theorems hold with no divergence "
+         "escape (C16_inv_frame_total, C16_reachable_total, C16_reachable_info_total). For ALL inputs the buffer is a whole number of "
+         "1/2/4-byte frames, between 8 and XMP_MAX_FRAMESIZE/4 frames, never above XMP_MAX_FRAMESIZE bytes, within one frame of rate x frame "
+         "time when neither clamp applies (C16_ticksize, C16_framesize_bound, C16_ticksize_agrees); an accepted tempo factor is never clamped "
+         "(C16_tempo_factor_no_clamp); 0<=virt_used<=maxvoc<=virt_channels after every history of virtual.c operations (C16_virt, "
+         "C16_virt_inv). Tied to src/player.c, control.c, effects.c, flow.c, read_event.c, mixer.c, virtual.c on every run: kernel step of "
+         "every frame (also of every frame played INSIDE xmp_play_buffer, observed through a linker --wrap hook on libxmp_mixer_softmixer), "
+         "control calls, start-up, ST2.6 step, stop rule and state preservation of xmp_play_buffer, tick size, tempo-factor acceptance, every "
+         "virtual.c call; Fx.processFx against sampled real libxmp_process_fx calls (--wrap hook: corpus modules, synthetic modules, injected "
+         "and delayed events) and Fx.readRow + ST2.6 step against the first tick of a row of a real module for every effect number x "
+         "parameter x lane under random set-up rows, partner effects and 10 (quick) / 24 (thorough) configurations of player mode, quirks, "
+         "flow mode, flags and time factor, incl. the two time factors where the tempo minimum leaves the byte range; Fx.tempoSlideStep "
+         "against the following tick; constants, the min_bpm clamp and the writer-site list regenerated from the sources; plus a direct "
+         "oracle on xmp_frame_info that yields replayable failing inputs.",
+    note="Still abstract / monitored: (1) effect numbers 0x68 (FX_FAR_TEMPO) and 0x69 (FX_FAR_F_TEMPO) in a module that carries FAR extras "
+         "(libxmp_far_update_tempo writes p->speed/p->bpm): they enter as Prim.raw constrained by EffectRange, which the harness monitors on "
+         "every real frame; every other effect number 0x00..0xff is modelled (all but the 17 flow effects leave the modelled variables "
+         "alone, which the exhaustive fxrow correspondence checks). (2) WHICH writes an effect stage performs is exact for read_row on the "
+         "first tick of a row (Fx.readRow, tied) incl. the same-tick read of a one-tick delayed event; for the rest of stage B (inject_event, "
+         "events delayed by >= 2 ticks, tempo/global-volume slides of play_channel in their real order) the theorems quantify over ALL "
+         "sequences of Prim writes — a sound over-approximation, with the completeness of the Prim list checked syntactically "
+         "(C16_fx_writer_sites). Event fields other than the two effect lanes (note/instrument/volume, the key-off + EDx rewriting of "
+         "read_row) only select which event is read and are not modelled; the post-call xc->vol.memory is compared for FX_S3M_SPEED only. "
+         "p->gvol is modelled but not constrained (not a C16 clause). (3) Module data (orders, rows, scan results, xxo_info) enter through "
+         "the predicate WF evaluated by the Lean driver on every module played; scan.c and the loaders are not modelled. (4) The C computes "
+         "the tick size and min_bpm in double; the model is exact rational arithmetic and the correspondence brackets the rounding. (5) "
+         "'agrees with rate x frame time' is proved between the minimum and maximum frame-size clamps, for rates in [XMP_MIN_SRATE, "
+         "XMP_MAX_SRATE]. (6) OrdWF (what libxmp_scan_sequences guarantees for kept sequences) is a monitored hypothesis of the termination "
+         "theorems only, evaluated by the Lean driver and cross-checked in C. (7) libxmp_virt_off is not modelled; the byte accounting of "
+         "xmp_play_buffer is C12's model. Correspondence is sampled (differential) except the effect sweep, which is exhaustive over "
+         "effect number x parameter x lane in the thorough tier and over the 17 flow effects in the quick tier.",
+    technique="Lean 4 invariant proofs by case analysis over the kernel and the effect interpreter + induction over call histories; "
+              "refinement of the abstract effect stage by modelled writes; differential correspondence from dumped pre-states and linker "
+              "--wrap hooks; exhaustive effect x parameter sweep; direct oracle on xmp_frame_info",
     design_ref="DESIGN.md section 4 C16/C17",
 )
 
@@ -60,12 +89,23 @@ REQUIRED = [
     "Xmp.Seq.C16_loop_monotone_run", "Xmp.Seq.C16_inv_control", "Xmp.Seq.C16_reachable", "Xmp.Seq.C16_reachable_info",
     "Xmp.Seq.C16_next_order_terminates", "Xmp.Seq.C16_frame_returns", "Xmp.Seq.C16_inv_frame_total",
     "Xmp.Seq.C16_reachable_total", "Xmp.Seq.C16_reachable_info_total",
+    "Xmp.Seq.C16_play_buffer", "Xmp.Seq.C16_reachable_api", "Xmp.Seq.C16_loop_monotone_api",
+    "Xmp.Fx.C16_fx_env_ok", "Xmp.Fx.C16_fx_writer_sites", "Xmp.Fx.C16_fx_range", "Xmp.Fx.C16_fx_range_call", "Xmp.Fx.C16_fx_range_row",
+    "Xmp.Fx.C16_frame_fx_refines", "Xmp.Fx.C16_inv_frame_fx", "Xmp.Fx.C16_inv_frame_fx_total", "Xmp.Fx.C16_reachable_fx",
+    "Xmp.Fx.C16_reachable_fx_info", "Xmp.Fx.C16_fx_unclamped_counterexample",
     "Xmp.Tick.C16_ticksize", "Xmp.Tick.C16_framesize_bound", "Xmp.Tick.C16_ticksize_agrees", "Xmp.Tick.C16_tempo_factor_no_clamp",
     "Xmp.Virt.C16_virt", "Xmp.Virt.C16_virt_inv",
 ]
 
-PRODUCERS = ("wf", "start", "von", "frame", "ctl", "st26", "tick", "tfac", "vop", "vopf")
-NAMES = {"wf": "Seq.ordWfB (Lean) vs the same clause evaluated in C on the live module", "frame": "Seq.kernelStep vs xmp_play_frame (kernel-owned fields)", "ctl": "Seq.ctl vs control.c position calls",
+# every xmp_play_frame ends in libxmp_mixer_softmixer (mixer.c): the hook that observes the frames played inside xmp_play_buffer
+# every libxmp_process_fx call (effects.c, called from read_event.c) passes through the hook that dumps the flow record around it
+HARNESS_EXTRA = ["-Wl,--wrap=libxmp_mixer_softmixer", "-Wl,--wrap=libxmp_process_fx"]
+
+PRODUCERS = ("wf", "start", "von", "frame", "ctl", "fx", "fxrow", "tslide", "pbuf", "st26", "tick", "tfac", "vop", "vopf")
+NAMES = {"tslide": "Fx.tempoSlideStep vs the IT tempo slide tick of play_channel",
+         "fx": "Fx.processFx vs libxmp_process_fx (flow record around every sampled real call)",
+         "fxrow": "Fx.readRow + st26 step + same-tick delayed read vs the first tick of a row of a real module (every effect number x parameter)",
+         "pbuf": "Seq.framesUntilLimit vs the number of frames xmp_play_buffer played (loop-limit stop rule)", "wf": "Seq.ordWfB (Lean) vs the same clause evaluated in C on the live module", "frame": "Seq.kernelStep vs xmp_play_frame (kernel-owned fields)", "ctl": "Seq.ctl vs control.c position calls",
          "start": "Seq.start vs xmp_start_player", "von": "Virt.virtOn vs libxmp_virt_on", "st26": "Seq.st26Step vs ST2.6 speed step",
          "tick": "Tick.getTicksize/prepare/bufferSize vs mixer.c", "tfac": "Tick.setTempoFactor vs xmp_set_tempo_factor (acceptance)", "vop": "Virt.step vs virtual.c",
          "vopf": "Virt.step vs virtual.c (field-only operations: setnna, setsmp, queuepatch, pastnote OFF/FADE; all voice fields)"}
@@ -115,13 +155,23 @@ def replay_of(exe, case, nframes, vd):
     f = case["begin"].split()
     if len(f) >= 3 and f[0] == "case":
         return {"cmd": ["c16_frames", "case", f[1], str(nframes), str(vd), f[2]], "case": case["begin"]}
+    if len(f) >= 3 and f[0] == "fxall" and f[2].startswith("cfg="):
+        return {"cmd": ["c16_frames", "fxall", f[1], f[2][4:], "1", "0"], "case": case["begin"]}
     return {"case": case["begin"]}
+
+
+FXT_SEEN = {}
+
+
+def wild_eq(et, mt):
+    """token-wise equality; '*' on either side matches anything (a field the harness / the driver declares not comparable)"""
+    return len(et) == len(mt) and all(a == b or a == "*" or b == "*" for a, b in zip(et, mt))
 
 
 def compare_case(ck, case, model_lines, stats, rp):
     """Compare expected (real) vs model lines of one case. Returns per-case counters."""
     prod = [d for d in case["D"] if d.split(" ", 1)[0] in PRODUCERS]
-    c = {"frames": 0, "repos": 0, "ordchg": 0, "ctl": 0, "wf": None, "ordwf": None, "fin": 0}
+    c = {"frames": 0, "repos": 0, "ordchg": 0, "ctl": 0, "wf": None, "ordwf": None, "fin": 0, "fxrows": 0, "fxchanged": 0}
     oracle_failed = bool(case["O"])
     n = min(len(prod), len(case["E"]), len(model_lines))
     prev_ord = None
@@ -164,11 +214,23 @@ def compare_case(ck, case, model_lines, stats, rp):
                 stats["model_diverge"] += 1
         elif kind == "ctl":
             c["ctl"] += 1
+        elif kind == "fx":
+            ok = wild_eq(et, mt)
+            fxt = d.split("|")[1].split()[4]
+            FXT_SEEN[int(fxt)] = FXT_SEEN.get(int(fxt), 0) + 1
+            if mt[:2] == ["x", "unmodelled"]:
+                stats["fx_unmodelled_far_tempo"] += 1
+                ok = True
+        elif kind == "fxrow":
+            ok = wild_eq(et, mt)
+            c["fxrows"] += 1
+            if d.split("|")[2].split() != e.split("|")[0].split()[1:]:
+                c["fxchanged"] += 1
         elif kind == "vopf":
             stats["vopf_" + d.split(" ", 2)[1]] += 1
         if ok:
             stats["agree_" + kind] += 1
-            ck.cov["traces_validated_against_impl"] += 1 if kind in ("frame", "ctl", "vop", "vopf") else 0
+            ck.cov["traces_validated_against_impl"] += 1 if kind in ("frame", "ctl", "vop", "vopf", "fx", "fxrow") else 0
         elif not oracle_failed:
             stats["disagree_" + kind] += 1
             ck.unproved("correspondence " + NAMES.get(kind, kind),
@@ -178,11 +240,13 @@ def compare_case(ck, case, model_lines, stats, rp):
 
 
 def run(ck):
+    FXT_SEEN.clear()
     consts, changed = gen_player_consts.generate()
     ck.note("generated_consts_changed", changed)
-    ck.note("consts", {k: consts[k] for k in ("maxFramesize", "maxSrate", "minBpm", "anticlickShift", "smixNumvoc")})
+    ck.note("consts", {k: consts[k] for k in ("maxFramesize", "maxSrate", "minBpm", "anticlickShift", "smixNumvoc", "s3mBpmClamp",
+                                              "flowWriterSites")})
     ck.proofs(["XmpProps.C16"], required=REQUIRED, drivers=["drv_c16"])
-    exe = vlib.build_harness("c16_frames", ["c16_frames.c"])
+    exe = vlib.build_harness("c16_frames", ["c16_frames.c"], extra=HARNESS_EXTRA)
     quick = ck.tier == "quick"
     seed = ck.seed
     if quick:
@@ -191,12 +255,14 @@ def run(ck):
         corpus = pick_corpus(ck, 57)              # + the three repo test modules
         corpus_shards = 4
         tick_n = 6000
+        fx_shards, fx_cfgs, fx_thorough = 2, 5, 0     # 10 configurations (every player mode twice) x ~16 k experiments
     else:
         nframes, vd = 500, 6
         synth_shards, synth_per = 12, 420         # 5040 synthetic modules
         corpus = pick_corpus(ck, None)
         corpus_shards = 12
         tick_n = 200000
+        fx_shards, fx_cfgs, fx_thorough = 12, 2, 1    # 24 configurations x 2 lanes x 256 effects x 256 parameters
     shards = []
     for i in range(synth_shards):
         shards.append((exe, ["play", str(seed * 7919 + i), str(synth_per), str(nframes), str(vd), "@synth"]))
@@ -206,6 +272,10 @@ def run(ck):
         if mods:
             shards.append((exe, ["play", str(seed * 104729 + i), str(len(mods)), str(nframes), str(vd)] + mods))
     shards.append((exe, ["tick", str(seed * 31 + 5), str(tick_n)]))
+    for i in range(fx_shards):
+        shards.append((exe, ["fxall", str(seed), str(i * fx_cfgs), str(fx_cfgs), str(fx_thorough)]))
+    # time factors at which the tempo minimum of label fx_s3m_bpm leaves the byte range (flow effects only)
+    shards.append((exe, ["fxall", str(seed), "1000", "2", "0"]))
     results = vlib.pmap(run_shard, shards)
 
     from collections import defaultdict
@@ -258,6 +328,11 @@ def run(ck):
                 if not c["O"]:
                     ck.unproved("monitored assumption " + a.split(" ", 1)[0],
                                 "case [%s]: %s ; replay %s" % (c["begin"], a[:400], rp))
+            if c["begin"].startswith("fxall"):
+                stats["fxrow_experiments"] += cc.get("fxrows", 0)
+                stats["fxrow_state_changed"] += cc.get("fxchanged", 0)
+                ck.count(vlib.hash_str(c["begin"]), nontrivial=cc.get("fxchanged", 0) >= 1000)
+                continue
             nontrivial = cc["frames"] >= 20 and cc["repos"] >= 1 and cc["ordchg"] >= 1
             ck.count(vlib.hash_str(c["begin"]), nontrivial=nontrivial)
             ck.sample({"case": c["begin"][:200], "frames_ok": cc["frames"], "repositions": cc["repos"],
@@ -276,15 +351,23 @@ def run(ck):
     for k, v in sorted(nstats.items()):
         ck.note("harness_" + k, v)
     ck.note("oracle_failure_signatures", dict(sigs))
+    ck.note("fx_calls_compared_by_effect_number", {"%#04x" % k: v for k, v in sorted(FXT_SEEN.items())})
     ck.note("synthetic_modules", synth_shards * synth_per)
     ck.note("corpus_modules_offered", len(corpus))
-    ck.cov["rule"] = ("case = (module: corpus file or seeded synthetic module; rate, format, voices, tempo-factor mode; seeded history of "
-                      "xmp_play_frame interleaved with xmp_set_position/next/prev/set_row/seek_time/stop/restart and injected speed/tempo/flow "
-                      "events); distinct by hash of the case header; non-trivial = at least 20 successful frames, at least one reposition "
-                      "frame and at least one order change inside the case")
+    ck.cov["rule"] = ("case = (module: corpus file or seeded synthetic module; rate, format, voices, tempo-factor mode, buffer mode; seeded history "
+                      "of xmp_play_frame / xmp_play_buffer interleaved with xmp_set_position/next/prev/set_row/seek_time/stop/restart/buffer "
+                      "reset and injected speed/tempo/flow events); distinct by hash of the case header; non-trivial = at least 20 successful "
+                      "frames, at least one reposition frame and at least one order change inside the case. fxall case = one configuration "
+                      "(player mode, quirks, flow mode, flags, time factor) of the effect sweep; non-trivial = at least 1000 experiments in "
+                      "which the row changed the flow record")
     ck.assumptions += [
         "EffectRange: after every frame pbreak in {0,1}, jump in [-1,255], jumpline/delay/rowdelay >= 0, speed in 1..255, bpm >= 1, "
-        "st26_speed 0 or two non-zero bytes — monitored on every real frame (harness 'A effrange')",
+        "st26_speed 0 or two non-zero bytes — monitored on every real frame (harness 'A effrange'); hypothesis of the C16_reachable family and, "
+        "in the C16_*_fx family, of the unmodelled FAR tempo writes (Prim.raw) only",
+        "EnvOk: the tempo minimum of label fx_s3m_bpm is a non-zero byte — proved for the code as generated (C16_fx_env_ok, "
+        "CLAMP(min_bpm, 1, 255) extracted from src/effects.c on every run); the two time factors where it failed before /repo 694de7b are "
+        "played in every run (fxall configurations 1000/1001)",
+        "xmp_play_buffer touches the player state only through xmp_play_frame — monitored after every buffer call (harness 'A pbufstate')",
         "WF: module data read by the kernel (orders, rows >= 1, sequence table, entry points, xxo_info speed/bpm) — evaluated by the Lean "
         "driver (Seq.wfB) on every module played",
         "OrdWF: every kept sequence reaches an order holding a pattern (restart position of the sequence, entry point, or forward walk "
@@ -297,7 +380,7 @@ def run(ck):
 
 
 def replay(ck, rp):
-    exe = vlib.build_harness("c16_frames", ["c16_frames.c"])
+    exe = vlib.build_harness("c16_frames", ["c16_frames.c"], extra=HARNESS_EXTRA)
     r = rp.get("replay", {})
     cmd = r.get("cmd")
     if not cmd:
